@@ -1,10 +1,51 @@
 /-
-  Driver ops for C14.
+  Driver ops for C14 (determinism): the model's order-parameterised functions, run over ALL orders.
+    c14.reclit   {"entries":[[hexkey, expr]…], env}   every result `recordLiteralEval.Eval` can produce
+                                                      (one per permutation of the entries), sorted, `|`-joined
+    c14.inmsg    {"members":[value…]}                 every type name the message of `x in [members]` can
+                                                      mention (first non-entity member over all orders), or `none`
+    c14.sortkeys {"keys":[hex…]}                      the order in which a string-keyed encoder emits the keys
+    c14.containsall / c14.containsany {"lhs":[value…],"rhs":[value…]}   the loop's answer over all orders of rhs
 -/
 import CedarGo.Driver.Ops.Core
+import CedarGo.Model.Order
 namespace CedarGo.Driver
 open Lean CedarGo
 
-def c14Ops : List (String × Handler) := []
+def c14MaxPerm : Nat := 6
+
+def opC14RecLit : Handler := fun envs j => do
+  let kes ← (← jArr (← field j "entries")).mapM fun kv => do
+    match ← jArr kv with
+    | [k, v] => .ok ((← jHex k), (← decExpr v))
+    | _ => .error "bad entry"
+  if kes.length > c14MaxPerm then throw "too-many-entries"
+  let env ← getEnv envs j
+  .ok ("|".intercalate (sortDedup ((recordLitOutcomes kes env).map showRes)))
+
+def opC14InMsg : Handler := fun _ j => do
+  let vs ← (← jArr (← field j "members")).mapM decValue
+  if vs.length > c14MaxPerm then throw "too-many-members"
+  let outs := (perms vs).map fun σ => match inSetFirstBad σ with | some k => k | none => "none"
+  .ok ("|".intercalate (sortDedup outs))
+
+def opC14SortKeys : Handler := fun _ j => do
+  let ks ← (← jArr (← field j "keys")).mapM jHex
+  .ok (",".intercalate ((marshalByStringKey hex ks)))
+
+def c14Quant (loop : List Value → List Value → Bool) : Handler := fun _ j => do
+  let lhs ← (← jArr (← field j "lhs")).mapM decValue
+  let rhs ← (← jArr (← field j "rhs")).mapM decValue
+  -- `NewSet` removes duplicates; the loop runs over the members of the right-hand set
+  let lhs := match mkSet lhs with | .set xs => xs | _ => []
+  let rhs := match mkSet rhs with | .set xs => xs | _ => []
+  if rhs.length > c14MaxPerm then
+    .ok (toString (loop lhs rhs))
+  else
+    .ok ("|".intercalate (sortDedup ((perms rhs).map fun σ => toString (loop lhs σ))))
+
+def c14Ops : List (String × Handler) :=
+  [("c14.reclit", opC14RecLit), ("c14.inmsg", opC14InMsg), ("c14.sortkeys", opC14SortKeys),
+   ("c14.containsall", c14Quant containsAllLoop), ("c14.containsany", c14Quant containsAnyLoop)]
 
 end CedarGo.Driver
